@@ -7,6 +7,7 @@ mod c04;
 mod c06;
 mod c07;
 mod c09;
+mod c10;
 mod c11;
 mod yamlw;
 mod c12;
@@ -96,6 +97,7 @@ fn main() {
         "C06" => c06::run(&tier),
         "C07" => c07::run(&tier),
         "C09" => c09::run(&tier),
+        "C10" => c10::run(&tier),
         "C11" => c11::run(&tier),
         "C12" => c12::run(&tier),
         "C13" => c13::run(&tier),
